@@ -567,7 +567,8 @@ class Canon:
         fn = call.func
         if not (isinstance(fn, ast.Attribute) and isinstance(fn.value, ast.Name) and fn.value.id == 'self'):
             return None
-        if fn.attr in self.NO_INLINE or frame.func.cls is None:
+        if fn.attr in self.NO_INLINE or frame.func.cls is None or not fn.attr.startswith('_') or \
+                fn.attr.startswith('__'):
             return None
         cal = frame.func.cls.find_method(fn.attr)
         if cal is None or cal.is_generator or cal is frame.func:
